@@ -106,14 +106,14 @@ class TreeGenerator(BaseGenerator):
     def multiblock_if(self, *blocks, condition=DefaultBlockIfCondition):
         if condition is DefaultBlockIfCondition:
             condition = (None not in blocks)
-            if condition:
-                if blocks:
-                    blk = blocks[0]
-                    tokens = blk if isinstance(blk, (list, tuple)) else [blk]
-                    with self.block(*tokens):
-                        with self.multiblock(*blocks[1:]):
-                            yield
-                            return
+        if condition:
+            if blocks:
+                blk = blocks[0]
+                tokens = blk if isinstance(blk, (list, tuple)) else [blk]
+                with self.block(*tokens):
+                    with self.multiblock(*blocks[1:]):
+                        yield
+                        return
         yield
 
     # ===
